@@ -27,8 +27,10 @@ pub fn dash_path(path: &Path, dash_array: &[f32], mut dash_offset: f32) -> Path 
         total_dash_length *= 2.;
     }
 
-    // The dash length must be more than zero.
-    if !(total_dash_length > 0.) {
+    // The dash length must be more than zero, and finite: with an infinite period
+    // the offset can not be normalised (a negative offset would become infinite and
+    // the loop below would never terminate)
+    if !(total_dash_length > 0.) || total_dash_length == std::f32::INFINITY {
         return dashed.finish();
     }
 
